@@ -39,4 +39,6 @@ class C09:
         return gen.nontrivial(meta)
 
 
-PROPS = {"C09": C09}
+from .c15 import C15  # noqa: E402
+
+PROPS = {"C09": C09, "C15": C15}
